@@ -345,3 +345,29 @@ Section Keep.
     destruct ok; [destruct e|]; cbn [fst clear_temp ban with_chain chain finalized]; auto.
   Qed.
 End Keep.
+
+(* ---------------------------------------------------------------- choice of the mechanism *)
+From Coq Require Import ZArith.
+Lemma choose_sync_symmetric : forall a b n v g, choose_sync a b n v g = choose_sync b a n v g.
+Proof.
+  intros a b n v g. unfold choose_sync, abs_diff.
+  destruct (a <=? b)%N eqn:E1, (b <=? a)%N eqn:E2; try reflexivity.
+  - apply N.leb_le in E1, E2. assert (a = b) by lia. subst. reflexivity.
+  - apply N.leb_gt in E1, E2. lia.
+Qed.
+
+(* a block within two rounds of the own tip from a current validator is always handled by fast sync, whether the
+   offered chain is longer or SHORTER than ours *)
+Lemma close_block_uses_fast_sync : forall own_h block_h n g,
+  (own_h <= block_h + 2 * n)%N -> (block_h <= own_h + 2 * n)%N -> choose_sync own_h block_h n true g = MFast.
+Proof.
+  intros own_h block_h n g H1 H2. unfold choose_sync, abs_diff.
+  destruct (own_h <=? block_h)%N eqn:E; [apply N.leb_le in E|apply N.leb_gt in E].
+  - assert (E2 : (block_h - own_h <=? 2 * n)%N = true) by (apply N.leb_le; lia). rewrite E2. reflexivity.
+  - assert (E2 : (own_h - block_h <=? 2 * n)%N = true) by (apply N.leb_le; lia). rewrite E2. reflexivity.
+Qed.
+
+Lemma choose_sync_wrap_refuted :
+  exists own_h block_h n g, (block_h < own_h)%N /\ (own_h <= block_h + 2 * n)%N /\
+    choose_sync own_h block_h n true g = MFast /\ choose_sync_wrap own_h block_h n true g = MNone.
+Proof. exists 16%N, 15%N, 4%N, 12%Z. split; [lia|]. split; [lia|]. split; vm_compute; reflexivity. Qed.
